@@ -137,7 +137,11 @@ def check(res):
         (
             e.seq
             for e in evs
-            if (e.kind == "state" and e.d["new"] in ("stopping", "aborting")) or (e.kind == "cmd" and e.d["end"] == "error") or (e.kind == "status" and not e.d["ok"])
+            if (e.kind == "state" and e.d["new"] in ("stopping", "aborting"))
+            or (e.kind == "cmd" and e.d["end"] == "error")
+            or (e.kind == "status" and not e.d["ok"])
+            # a device method the engine calls on its own account (restore_monitors at resume) raising
+            or (e.kind == "dev" and e.d.get("fault") == "raise")
         ),
         None,
     )
